@@ -99,7 +99,7 @@ def interaction_items():
             '<list><i pos="2">ab</i><i pos="2">xy</i><i pos="1">abc</i><g><i pos="1">p</i><i pos="2">qq</i><i pos="2">r</i></g><i pos="5">abcde</i><i pos="x">q</i><i/></list>']
     numpreds = ['number(@pos)', '@pos + 0', 'position()', 'position() + 0', 'last() - position() + 1', 'count(preceding-sibling::*) + 1',
                 'count(following-sibling::*) + 1', 'string-length(.)', 'sum(@pos)', 'round(@pos)', '-(-position())', 'number(@pos) div 1',
-                'floor(@pos div 2) + 1', 'count(../i)', '@pos * 1', 'position() mod 2 + 1', 'number(../i[1]/@pos)', 'last()', '2', '0', '1.5', 'number("x")']
+                'floor(@pos div 2) + 1', 'count(../i)', '@pos * 1', 'position() mod 2 + 1', 'number(../i[1]/@pos)', 'last()', '2', '0', '1.5', '0.5', '.25', '0.999', '1.0', '2.000', '3.', '4294967297', 'number("x")']
     heads = ['/list/i', '//i', '/list/*', '(//i)', '(/list/i | //g/i)', '/list/i[last()]/preceding-sibling::i', '//i[last()]/preceding::i',
              '/list/i[1]/following-sibling::*', '//g/i[last()]/ancestor-or-self::*', '/list//i', '/list/i[@pos]', '(//i)[@pos > 1]']
     for d in docs:
